@@ -28,15 +28,15 @@ func c10Seqs(tier string) []*gen.TokSeqs {
 
 // seqPlan lays several token-sequence spaces, a tree block and a fuzz block over batch numbers.
 type seqPlan struct {
-	seqs    []*gen.TokSeqs
-	starts  []int // first batch of each space
-	nSeq    int
-	nTree   int
-	nFuzz   int
-	nFrag   int
-	nHost   int
-	nLong   int
-	space   *qt.Space
+	seqs   []*gen.TokSeqs
+	starts []int // first batch of each space
+	nSeq   int
+	nTree  int
+	nFuzz  int
+	nFrag  int
+	nHost  int
+	nLong  int
+	space  *qt.Space
 }
 
 func newSeqPlan(tier string, fuzzQuick, fuzzThorough int) *seqPlan {
